@@ -1132,3 +1132,50 @@ Proof.
     destruct (_ ++ _); cbn [snd]; [|destruct v]; cbn [W V1 phi1 eta1 set_V1 set_Mu]; rewrite ?set_nth_length; auto.
   - auto.
 Qed.
+
+(* ---------------------------------------------------------------- _reconstruct_Mu *)
+Lemma zmap_as_tab {B} (f : Z -> B) (l : list Z) : map f l = tab (length l) (fun i => f (znth l i)).
+Proof. apply (map_as_tab_gen 0%Z). Qed.
+
+Lemma vadd_tab n a b : np_vadd (tab n a) (tab n b) = tab n (fun i => a i + b i).
+Proof. apply zipw_tab. Qed.
+
+Lemma mu_row_is_model g s c d1 d2 :
+  shape2 (W s) (c_ncl g) (c_D g) -> shape2 (V2 s) (c_ndd g) (c_D g) -> shape2 (V1 s) (c_ndd g) (c_D g) ->
+  let row M ix := if (ix =? -1)%Z then repeat 0 (c_D g) else np_get (repeat 0 (c_D g)) M ix in
+  let num v ix := if (ix =? -1)%Z then 0 else np_get 0 v ix in
+  alpha s + np_get 0 (W0 s) c + num (V0 s) d1 + num (V0 s) d2
+  + qsum (np_vmul (np_get (repeat 0 (c_D g)) (W s) c) (np_vadd (row (V1 s) d1) (row (V1 s) d2)))
+  + qsum (np_vmul (np_vmul (np_get (repeat 0 (c_D g)) (W s) c) (row (V2 s) d1)) (row (V2 s) d2))
+  = mu_row (c_D g) s c d1 d2.
+Proof.
+  intros HW H2 H1. cbv zeta. unfold mu_row. cbv zeta.
+  destruct (wrow_spec (W s) _ _ c HW) as [Lw Ew].
+  destruct (getrow_spec (V2 s) _ _ d1 H2) as [La Ea]. destruct (getrow_spec (V2 s) _ _ d2 H2) as [Lb Eb].
+  destruct (getrow_spec (V1 s) _ _ d1 H1) as [Lc Ec]. destruct (getrow_spec (V1 s) _ _ d2 H1) as [Ld Ed].
+  cbv zeta in *. unfold np_vmul, np_vadd.
+  rewrite (zipw_rows Qcplus _ _ _ Lc Ld), (zipw_rows Qcmult _ _ _ Lw La).
+  rewrite (zipw_rows Qcmult _ _ (c_D g) Lw (tab_length _ _)), (zipw_rows Qcmult _ _ (c_D g) (tab_length _ _) Lb).
+  change (qsum (tab ?n ?f)) with (sumn n f). unfold vdot, vadd.
+  f_equal; [f_equal|].
+  - apply sumn_ext. intros k Hk. rewrite !vnth_tab by exact Hk. now rewrite Ew, Ec, Ed.
+  - apply sumn_ext. intros k Hk. rewrite !vnth_tab by exact Hk. now rewrite Ew, Ea, Eb.
+Qed.
+
+Theorem src_reconstruct_Mu_is_model g d clip s :
+  length (d_cl d) = nobs d -> length (d_dd1 d) = nobs d -> length (d_dd2 d) = nobs d ->
+  shape2 (W s) (c_ncl g) (c_D g) -> shape2 (V2 s) (c_ndd g) (c_D g) -> shape2 (V1 s) (c_ndd g) (c_D g) ->
+  src_reconstruct_Mu g d clip s = GRet (reconstruct_Mu g d clip s).
+Proof.
+  intros Lc L1 L2 HW H2 H1. unfold src_reconstruct_Mu, reconstruct_Mu. rewrite src_n_obs_is_model. cbn [gbind].
+  rewrite of_nat_eqb0. destruct (nobs d) as [|n'] eqn:En; [reflexivity|]. rewrite <- En in *. clear En n'.
+  cbv zeta. rewrite !src_get_is_model. cbn [gbind]. unfold np_take, np_sadd, q0, qnum.
+  rewrite !zmap_as_tab, Lc, L1, L2.
+  repeat (first [rewrite zipw_tab | rewrite map_tab | rewrite vadd_tab]).
+  cbn [Mu set_Mu].
+  match goal with |- gbind (if clip then GRet (set_Mu _ (map ?c (tab ?n ?F))) else GRet (set_Mu _ (tab ?n ?F))) _ = _ =>
+    assert (HF : tab n F = reconstruct g d s) end.
+  { unfold reconstruct. apply tab_ext. intros i _. unfold mu_at.
+    rewrite <- (mu_row_is_model g s _ _ _ HW H2 H1). cbv zeta. unfold np_vmul, np_vadd. ring. }
+  rewrite HF. destruct clip; reflexivity.
+Qed.
